@@ -2,7 +2,6 @@
    chart, and their soundness.
      targets_noinitb      no transition targets an <initial> element (a <history> target is allowed: this replaces
                           targets_properb of RunConformInitialWf.v)
-     hist_targets_nodupb  no transition names the same <history> twice in its target list
      deep_cpl_fullb       the completion of a deep history holds every proper state below the history's parent
                           (what LargeMicroStep::init builds; a check on the tables, not on the document)
      (hist_target_localb: RunConformHistDom.v;  leaf_okb: EngineEquivDone.v)
@@ -26,9 +25,6 @@ Let kd (i : nat) := fs_type (st c i).
 Definition targets_noinitb : bool :=
   forallb (fun ti => forallb (fun g => negb (is_initial_t (kd g))) (ft_targets (tr c ti))) (seq 0 (ntrans c)).
 
-Definition hist_targets_nodupb : bool :=
-  forallb (fun ti => nodupb (filter (fun s => is_hist (kd s)) (ft_targets (tr c ti)))) (seq 0 (ntrans c)).
-
 Definition deep_cpl_fullb : bool :=
   forallb (fun H => match kd H, fs_parent (st c H) with
                     | FHistDeep, Some q =>
@@ -47,15 +43,6 @@ Proof.
   - unfold targets_noinitb in H. rewrite forallb_forall in H. specialize (H ti ltac:(apply in_seq; lia)).
     rewrite forallb_forall in H. specialize (H g Hg). unfold kd in H. intros E. rewrite E in H. discriminate.
   - rewrite (tr_out_h ti Hge) in Hg. destruct Hg.
-Qed.
-
-Lemma hist_targets_nodupb_sound : hist_targets_nodupb = true ->
-  forall ti, NoDup (filter (fun s => histS c s) (ft_targets (tr c ti))).
-Proof.
-  intros H ti. destruct (Nat.lt_ge_cases ti (ntrans c)) as [Hlt|Hge].
-  - unfold hist_targets_nodupb in H. rewrite forallb_forall in H. specialize (H ti ltac:(apply in_seq; lia)).
-    apply nodupb_sound in H. exact H.
-  - rewrite (tr_out_h ti Hge). constructor.
 Qed.
 
 Lemma deep_cpl_fullb_sound : deep_cpl_fullb = true -> DeepFull c.
